@@ -35,7 +35,7 @@ def run(tier, seed):
             dict(name="C17_sock_imm", consts=S(False, 10 if q else 14, extras=("none", "w1")), simulate=25 if q else 250, units=(1, 512)),
             dict(name="C17_sock_def", consts=S(True, 10 if q else 14, extras=("none", "w1")), simulate=25 if q else 250, units=(1,)),
             # one read / write event moves at most 16384 bytes (max_single_read/write): unit = 4096
-            dict(name="C17_sock_caps", consts=S(False, 9 if q else 12, rdcap=4, wrcap=4, sizes=(1, 3, 5)),
+            dict(name="C17_sock_caps", consts=S(False, 9 if q else 12, rdcap=4, wrcap=4, sizes=(1, 3, 5), wirecap=8),
                  simulate=15 if q else 150, units=(4096,)),
         ] + ([] if q else [
             dict(name="C17_sock_tcp", consts=S(False, 10, extras=("none", "w1")), simulate=60, units=(1, 512), tcp=1),
@@ -55,6 +55,7 @@ def run(tier, seed):
                         "socket endpoints live on separate event bases (callback order across descriptors is unspecified)",
                         "deviation FlushStopsAtHighWatermark: be_pair_transfer fills only up to the high watermark even when flushing",
                         "rate limits, BEV_OPT_UNLOCK_CALLBACKS/THREADSAFE and transport faults are not generated",
+                        "socket histories keep the unread backlog below the kernel's socket buffer size (<= 32 KB)",
                         "applications read only inside read callbacks; callbacks are bounded by a harness guard (8 per loop call)"],
     }
     kinds = {"pair": bc.mon_c17("pair"), "filt": bc.mon_c17("filt"), "sock": bc.mon_c17("sock")}
